@@ -52,10 +52,15 @@ class HouseholderSequence(Transform):
             ).long()
             return torch.index_select(a, dim, order_index)
 
-        qv = tile(torch.eye(num_transforms // 2, features), 0, 2)
+        # One basis vector per pair of reflections; with more pairs than features the basis
+        # vectors are reused (torch.eye(pairs, features) would leave all-zero rows, and a
+        # reflection about a zero vector is 0/0).
+        num_pairs = num_transforms // 2
+        basis = torch.eye(features)[torch.arange(num_pairs) % features]
+        qv = tile(basis, 0, 2)
         if np.mod(num_transforms, 2) != 0:  # odd number of transforms, including 1
             qv = torch.cat((qv, torch.zeros(1, features)))
-            qv[-1, num_transforms // 2] = 1
+            qv[-1, num_pairs % features] = 1
         self.q_vectors = nn.Parameter(qv)
 
     @staticmethod
